@@ -103,12 +103,18 @@ func c15RealConn(m *vk.M, w *c15World, kinds map[string]int64) {
 		// connection loss
 		w.ops = append(w.ops, c15Op{Op: "server-down"})
 		srv.Stop()
-		if !c15Stable(c15Watchdog, func() bool {
+		// the loss is visible on the connection for a while (grpc backs off about a second
+		// before it redials); normally the state watcher settles on it at once
+		settled := c15Stable(c15Watchdog, func() bool {
 			cc.Connect()
 			return cc.GetState() == connectivity.TransientFailure && c15StateWatcherParked()
-		}) {
-			w.inconclusive("connection did not report TransientFailure to a settled state watcher")
-			return
+		})
+		if !settled {
+			if !c15Stable(c15Watchdog, func() bool { cc.Connect(); return cc.GetState() == connectivity.TransientFailure }) {
+				w.inconclusive("connection did not report TransientFailure")
+				return
+			}
+			m.Count("state_watcher_not_settled_on_loss", 1)
 		}
 		for i := 1 + r.Intn(4); i > 0; i-- {
 			g.putOrDel(r.Intn(2) == 0) // missed: the watch is down
@@ -127,27 +133,48 @@ func c15RealConn(m *vk.M, w *c15World, kinds map[string]int64) {
 		go srv.Serve(lis2)
 		if !c15Stable(2*c15Watchdog, func() bool {
 			cc.Connect()
-			return cc.GetState() == connectivity.Ready && c15StateWatcherParked()
+			return cc.GetState() == connectivity.Ready
 		}) {
-			w.inconclusive("connection did not come back to Ready with a settled state watcher")
+			w.inconclusive("connection did not come back to Ready")
 			return
 		}
-		// The watcher has processed Ready after a TransientFailure. Either the reload it
-		// must start shows (snapshot Gets, new watches) or - decisive - every goroutine of
-		// the package is parked while no Get was made.
+		// The connection is Ready again after a loss that was visible for a long time.
+		// Either the reload shows (snapshot Gets, new watches), or - decisive - the state
+		// watcher is parked on Ready, every goroutine of the package is parked and no Get
+		// was made; or the whole watchdog passes with the connection constantly Ready, no
+		// Get, and the state watcher never once seen parked (it spins or is stuck).
 		noReload := false
-		c15Stable(c15Watchdog, func() bool {
+		samples, parkedSamples, readyAll := 0, 0, true
+		reloaded := c15Stable(c15Watchdog, func() bool {
 			if w.etcd.watchCount() >= nb+expected {
 				return true
 			}
+			samples++
+			ready := cc.GetState() == connectivity.Ready
+			parked := c15StateWatcherParked()
+			if !ready {
+				readyAll = false
+			}
+			if parked {
+				parkedSamples++
+			}
 			g2, _, _, _ := w.etcd.counters()
-			if g2 == gets && cc.GetState() == connectivity.Ready && c15StateWatcherParked() && c15WatchersIdle(0) {
+			if settled && g2 == gets && ready && parked && c15WatchersIdle(0) {
 				noReload = true
 				return true
 			}
 			noReload = false
 			return false
 		})
+		if !reloaded && w.etcd.watchCount() < nb+expected {
+			g2, _, _, _ := w.etcd.counters()
+			if g2 == gets && readyAll && parkedSamples == 0 && samples >= 50 {
+				w.violate("C15:reconnect:no-reload:real-connection", "the gRPC connection went Ready -> TransientFailure -> Ready and stayed Ready for %v (%d samples), but no reload was started (no snapshot Get) and the state watcher goroutine was never seen waiting for the next state change (it spins or is stuck); %d changes made while down stay invisible", c15Watchdog, samples, w.pending())
+				return
+			}
+			w.inconclusive("no reload evidence within %v after the connection recovered (ready all the time=%v, watcher parked in %d of %d samples)", c15Watchdog, readyAll, parkedSamples, samples)
+			return
+		}
 		if noReload && w.etcd.watchCount() < nb+expected {
 			w.violate("C15:reconnect:no-reload:real-connection", "the gRPC connection went Ready -> TransientFailure -> Ready (state watcher settled on Ready) but no reload was started: no snapshot Get, all watch goroutines parked; %d changes made while down stay invisible", w.pending())
 			return
